@@ -254,7 +254,8 @@ func (c *shardedMapOf[V]) Walk(walkFn func(e EntryOf[V]) error) (int, error) {
 		for _, v := range c.hashedBuckets[i].data {
 			b.RUnlock()
 
-			err := walkFn(v)
+			// Passing a copy, usage counter of the stored entry is updated concurrently by readers.
+			err := walkFn(TraitEntryOf[V]{K: v.K, V: v.V, E: v.E, C: atomic.LoadInt64(&v.C)})
 			if err != nil {
 				return n, err
 			}
